@@ -140,7 +140,10 @@ Definition explain_sem_with (pinned : quirks) (c : sem_case) :=
 
 (** * group ll *)
 
-Inductive lop := OAccept | OOffer | OOfferErr | OClose (c : N) | OSetMax (n : Z).
+(** [OOfferErr]: the inner listener returns a permanent error; [OOfferTmp]: a temporary
+    net.Error. Either way Accept gives its permit back and returns the error to its caller
+    (no hidden retry): both are [LFail]. *)
+Inductive lop := OAccept | OOffer | OOfferErr | OOfferTmp | OClose (c : N) | OSetMax (n : Z).
 
 Record lobs := {
   l_cur : Z; l_real : Z; l_wq : list Z; l_held : Z; l_open : list N; l_blocked : Z;
@@ -188,7 +191,7 @@ Fixpoint ll_model (q : quirks) (s : lstate) (offers : list offer) (next : N) (op
         match o with
         | OAccept => (lstep q s LAcquire, offers, next)
         | OOffer => (s, offers ++ [OfConn next], (next + 1)%N)
-        | OOfferErr => (s, offers ++ [OfErr], next)
+        | OOfferErr | OOfferTmp => (s, offers ++ [OfErr], next)
         | OClose c => (lstep q s (LClose c), offers, next)
         | OSetMax n => (lrun q s [LSetMax n; LRun 0], offers, next)
         end in
@@ -223,6 +226,7 @@ Definition prop_ll (M init : Z) (ops : list lop) (obs : list lobs) (desync : boo
 Definition lhas_queue (obs : list lobs) : bool := existsb (fun st => 0 <? l_blocked st) obs.
 Definition lhas_shr (obs : list lobs) : bool := existsb (fun st => 0 <? l_shr st) obs.
 Definition lhas_set (ops : list lop) : bool := existsb (fun o => match o with OSetMax _ => true | _ => false end) ops.
+Definition lhas_tmp (ops : list lop) : bool := existsb (fun o => match o with OOfferTmp => true | _ => false end) ops.
 Definition lhas_open (obs : list lobs) : bool := existsb (fun st => negb (is_nil (l_open st))) obs.
 
 Definition class_ll (c : ll_case) : N :=
@@ -231,7 +235,7 @@ Definition class_ll (c : ll_case) : N :=
   | [] => 0%N
   | _ => if negb (lhas_open (lc_obs c)) && negb (lhas_queue (lc_obs c)) then 0%N else
          (1 + bN (lhas_queue (lc_obs c)) 1 + bN (lhas_shr (lc_obs c)) 2 + bN (lhas_set (lc_ops c)) 4
-            + bN over 8)%N
+            + bN over 8 + bN (lhas_tmp (lc_ops c)) 16)%N
   end.
 
 Definition check_ll_with (pinned : quirks) (c : ll_case) : result :=
@@ -246,10 +250,13 @@ Definition explain_ll_with (pinned : quirks) (c : ll_case) :=
 
 (** * group mq *)
 
-Inductive mop := QStart (cid : Z) | QCommit (slot : Z) (ab : bool) | QDisc (slot : Z).
+(** [QDel cid overlap]: deleteSession(cid) + a reconnect of the same id in a new slot; [overlap]
+    is OBSERVED (scheduling oracle): the reconnect ran between the two critical sections of a
+    deleteSession that gives up the broker lock while it closes the client *)
+Inductive mop := QStart (cid : Z) | QCommit (slot : Z) (ab : bool) | QDisc (slot : Z) | QDel (cid : Z) (overlap : bool).
 
-Record mq_step := { q_code : Z; q_clients : list (Z * Z) }.
-Record mq_case := { qc_cap : Z; qc_ops : list mop; qc_obs : list mq_step; qc_desync : bool }.
+Record mq_step := { q_code : Z; q_clients : list (Z * Z); q_served : Z }.
+Record mq_case := { qc_cap : Z; qc_ops : list mop; qc_obs : list mq_step; qc_desync : bool; qc_alive : Z }.
 
 Definition cid_of_idx (i : Z) : string := String (ascii_of_N (Z.to_N i)) EmptyString.
 Definition idx_of_cid (s : string) : Z :=
@@ -266,15 +273,15 @@ Definition mq_view (s : mstate) : list (Z * Z) :=
   sortP (map (fun e => (idx_of_cid (fst e), Z.of_N (snd e))) (clients s)).
 
 Definition mq_step_eqb (a b : mq_step) : bool :=
-  (q_code a =? q_code b) && list_eqb Zeqb_pair (q_clients a) (q_clients b).
+  (q_code a =? q_code b) && list_eqb Zeqb_pair (q_clients a) (q_clients b) && (q_served a =? q_served b).
 
 Definition code_of (o : mout) : Z :=
   match o with MAccepted => 0 | MRefused => 3 | MPassed => 7 | MNone => 9 end.
 
 (** [cids]: client id index of every slot started so far (slot = position) *)
-Fixpoint mq_model (q : quirks) (s : mstate) (cids : list Z) (ops : list mop) : list mq_step :=
+Fixpoint mq_model (q : quirks) (s : mstate) (cids : list Z) (ops : list mop) : list mq_step * mstate :=
   match ops with
-  | [] => []
+  | [] => ([], s)
   | o :: t =>
       let '(s', code, cids') :=
         match o with
@@ -289,8 +296,17 @@ Fixpoint mq_model (q : quirks) (s : mstate) (cids : list Z) (ops : list mop) : l
         | QDisc slot =>
             if slot <? 0 then (s, 9, cids) else
             let '(s1, _) := mstep q s (MTeardown (Z.to_N slot)) in (s1, 9, cids)
+        | QDel cid overlap =>
+            let k := N.of_nat (List.length cids) in
+            let c := cid_of_idx cid in
+            let s0 := fst (mstep q s (if overlap then MDelLookup c else MDelete c)) in
+            let '(s1, o1) := mstep q s0 (MCheck k) in
+            let '(s2, o2) := mstep q s1 (MCommit k c false) in
+            let s3 := if overlap then fst (mstep q s2 (MDelRemove (List.length (dels s2) - 1))) else s2 in
+            (s3, match o1 with MRefused => 3 | _ => code_of o2 end, cids ++ [cid])
         end in
-      {| q_code := code; q_clients := mq_view s' |} :: mq_model q s' cids' t
+      let '(r, sf) := mq_model q s' cids' t in
+      ({| q_code := code; q_clients := mq_view s'; q_served := nserved s' |} :: r, sf)
   end.
 
 Definition memZ (x : Z) (l : list Z) : bool := existsb (Z.eqb x) l.
@@ -325,8 +341,14 @@ Fixpoint prop_mq_steps (cap : Z) (prev : list (Z * Z)) (cids alive parked : list
             else (code =? 0, cids, slot :: alive, parked1)
         | QDisc slot =>
             (code =? 9, cids, filter (fun x => negb (x =? slot)) alive, parked)
+        | QDel cid _ =>
+            (* the reconnect is accepted, or refused only at the cap *)
+            ((code =? 0) || ((code =? 3) && full), cids ++ [cid],
+             if code =? 0 then slot_new :: alive else alive, parked)
         end in
       ok &&
+      (* the connections that are served never exceed the cap *)
+      (if 0 <? cap then q_served st <=? cap else true) &&
       (* the cap *)
       (if 0 <? cap then Z.of_nat (List.length (q_clients st)) <=? cap else true) &&
       (* every registered client is a live accepted connection (capacity of closed connections is released) *)
@@ -335,25 +357,30 @@ Fixpoint prop_mq_steps (cap : Z) (prev : list (Z * Z)) (cids alive parked : list
   | _, _ => false
   end.
 
-Definition prop_mq (cap : Z) (ops : list mop) (obs : list mq_step) (desync : bool) : bool :=
-  negb desync && prop_mq_steps cap [] [] [] [] ops obs.
+(** [alive]: final census of connections answering PINGREQ (-1 = not taken) *)
+Definition prop_mq (cap : Z) (ops : list mop) (obs : list mq_step) (desync : bool) (alive : Z) : bool :=
+  negb desync && prop_mq_steps cap [] [] [] [] ops obs && (if 0 <? cap then alive <=? cap else true).
 
 Definition mq_has_code (k : Z) (obs : list mq_step) : bool := existsb (fun st => q_code st =? k) obs.
 Definition mq_has_abort (ops : list mop) : bool := existsb (fun o => match o with QCommit _ true => true | _ => false end) ops.
+Definition mq_has_del (ops : list mop) : bool := existsb (fun o => match o with QDel _ _ => true | _ => false end) ops.
 
 Definition class_mq (c : mq_case) : N :=
   let unlimited := qc_cap c <=? 0 in
   if negb (mq_has_code 0 (qc_obs c)) then 0%N else
-  (1 + bN (mq_has_code 3 (qc_obs c)) 1 + bN (mq_has_abort (qc_ops c)) 2 + bN unlimited 4)%N.
+  (1 + bN (mq_has_code 3 (qc_obs c)) 1 + bN (mq_has_abort (qc_ops c)) 2 + bN unlimited 4 + bN (mq_has_del (qc_ops c)) 8)%N.
 
 Definition check_mq_with (pinned : quirks) (c : mq_case) : result :=
   let model q := mq_model q (minit (qc_cap c)) [] (qc_ops c) in
-  let corr := list_eqb mq_step_eqb (model pinned) (qc_obs c) && negb (qc_desync c) in
-  let prop := prop_mq (qc_cap c) (qc_ops c) (qc_obs c) (qc_desync c) in
-  let prop_with q := prop_mq (qc_cap c) (qc_ops c) (model q) false in
+  let '(msteps, mfinal) := model pinned in
+  let corr := list_eqb mq_step_eqb msteps (qc_obs c) && negb (qc_desync c) &&
+              ((qc_alive c <? 0) || (qc_alive c =? nserved mfinal)) in
+  let prop := prop_mq (qc_cap c) (qc_ops c) (qc_obs c) (qc_desync c) (qc_alive c) in
+  let prop_with q := let '(ms, mf) := model q in prop_mq (qc_cap c) (qc_ops c) ms false (nserved mf) in
   (corr, prop, class_mq c, if prop then 0%N else attribute pinned corr prop_with).
 
-Definition explain_mq_with (pinned : quirks) (c : mq_case) := mq_model pinned (minit (qc_cap c)) [] (qc_ops c).
+Definition explain_mq_with (pinned : quirks) (c : mq_case) :=
+  let '(ms, mf) := mq_model pinned (minit (qc_cap c)) [] (qc_ops c) in (ms, nserved mf).
 
 (** * storms (no model run; the always-on counters are judged directly) *)
 
